@@ -187,6 +187,24 @@ def run(ck):
                             ck.fail("relabel:exciton-dipoles", "exciton dipole strengths change under relabelling", dict(inp, perm=perm))
                 except Exception as e:
                     ck.fail("raises:relabel", "relabelled build raised %r" % (e,), dict(inp, perm=perm))
+                # the aggregate diagonalised by its own method: the dipole strengths it then holds (D2, all pairs of states) are those of the
+                # exciton states
+                try:
+                    wd, Sd = numpy.linalg.eigh(HH)
+                    if len(set(numpy.round(wd, 9))) == len(wd):
+                        aggd = make(qr, numpy, E, J, D, unit, None, mult)
+                        aggd.diagonalize()
+                        D2got = numpy.array(aggd.D2, dtype=float)
+                        DDx = numpy.einsum("ai,abn,bj->ijn", Sd, DD, Sd)
+                        D2want = numpy.sum(DDx ** 2, axis=2)
+                        dvd = float(numpy.abs(D2got - D2want).max())
+                        ck.resid("dipole strengths held after Aggregate.diagonalize() vs exciton transformation", dvd)
+                        if dvd > 1e-9 * max(1.0, float(D2want.max())):
+                            ij = numpy.unravel_index(int(numpy.argmax(numpy.abs(D2got - D2want))), D2got.shape)
+                            ck.fail("exciton-dipoles:after-diagonalize", "dipole strengths held by the aggregate after diagonalize() are not those of the exciton states "
+                                    "(|sum_ab c_ai d_ab c_bj|^2)", dict(inp, states=[int(ij[0]), int(ij[1])]), float(D2got[ij]), float(D2want[ij]))
+                except Exception as e:
+                    ck.fail("raises:exciton-dipoles:after-diagonalize", "diagonalize / D2 raised %r" % (e,), inp)
                 # the exciton dipole strengths as a user asks for them: dipole_strength() inside the Hamiltonian's eigenbasis, as the first thing
                 # done with the dipole operator there
                 try:
@@ -320,6 +338,41 @@ def point_dipole(ck, qr, numpy, const):
         got2 = float(agg.HH[2, 1])
         if got2 != got:
             ck.fail("point-dipole:symmetric", "generated coupling not symmetric", inp)
+
+
+    # ---- a history on ONE aggregate: couplings generated, a dipole changed (also to zero: a dark molecule), couplings generated again and
+    # the aggregate rebuilt - every coupling follows the formula for the dipoles as they are now ------------------------------------------
+    for h in range(ck.n(3, 12)):
+        pos3 = [[0.0, 0.0, 0.0], [8.0 + h, 1.0, 0.0], [3.0, 9.0 + h, 2.0]]
+        dip3 = [[1.0, 0.5, 0.0], [0.0, 2.0, -1.0], [1.5, 0.0, 1.0]]
+        dark = h % 3
+        inp = {"history": "set_coupling_by_dipole_dipole; molecule %d gets dipole %s; set_coupling_by_dipole_dipole; rebuild" % (dark, "0" if h % 2 == 0 else "x2"),
+               "positions": pos3, "dipoles": dip3}
+        try:
+            with energy_units("1/cm"):
+                ms3 = [Molecule([0.0, 12000.0 + 50.0 * k_]) for k_ in range(3)]
+            for k_ in range(3):
+                ms3[k_].set_dipole(0, 1, dip3[k_]); ms3[k_].position = numpy.array(pos3[k_])
+            ag3 = Aggregate(ms3)
+            ag3.set_coupling_by_dipole_dipole(epsr=1.0)
+            ag3.build()
+            newd = [0.0, 0.0, 0.0] if h % 2 == 0 else [2.0 * x_ for x_ in dip3[dark]]
+            ms3[dark].set_dipole(0, 1, newd)
+            dnow = [list(dip3[k_]) if k_ != dark else newd for k_ in range(3)]
+            ag3.set_coupling_by_dipole_dipole(epsr=1.0)
+            ag3.rebuild() if hasattr(ag3, "rebuild") else ag3.build()
+            ck.case(("dd-history", h), nontrivial=True, kind="point-dipole", positions="history")
+            for i_ in range(3):
+                for j_ in range(i_ + 1, 3):
+                    R = numpy.array(pos3[i_]) - numpy.array(pos3[j_]); RR = math.sqrt(float(numpy.dot(R, R))); nv = R / RR
+                    geo = (numpy.dot(dnow[i_], dnow[j_]) - 3.0 * numpy.dot(dnow[i_], nv) * numpy.dot(dnow[j_], nv)) / RR ** 3
+                    want = pref_SI * (Debye ** 2) / (1e-10 ** 3) * geo / const.hbar * 1e-15
+                    got = float(ag3.HH[1 + i_, 1 + j_])
+                    if abs(got - want) > 1e-6 * max(abs(want), 1e-9):
+                        ck.fail("point-dipole:regenerated", "after the dipole of a molecule was changed and the couplings were generated again, a coupling is not the "
+                                "point-dipole value for the present dipoles", dict(inp, pair=[i_, j_]), got, want)
+        except Exception as e:
+            ck.fail("raises:dipole-dipole:history", "raised %r" % (e,), inp)
 
 
 def multilevel(ck, qr, numpy):
